@@ -121,6 +121,12 @@ def _calendar_tabulate(ctx, cls: str) -> None:
                 n += 1
                 try:
                     got = w.call(recv, name, args)
+                except core.Unsupported as e:
+                    if "does not terminate within the iteration bound" in str(e) and "does not exist in the zone" in label:
+                        # day-by-day stepping that lands on the same day again: the loop of the analysed code cannot end
+                        bad.append(f"{label}: the search does not end (no progress after {minieval.MAX_ITER} steps: stepping back from the day after a missing day lands on that day again)")
+                        continue
+                    raise
                 except minieval.Raised as e:
                     if isinstance(want, tuple) and want[0] == "raise":
                         if e.exc_name != want[1]:
@@ -179,6 +185,22 @@ def _calendar_tabulate(ctx, cls: str) -> None:
                                 continue        # keep_time: decided for a midday instance in the plain zone
                             yield (f"{d} {rl} -> weekday {wd} keep_time={keep}{wl}", w, recv, [wd] + ([keep] if keep is not None else []), want, keep)
 
+    def missing_day_cases(forward):
+        """a zone in which one whole day does not exist (Pacific/Apia lost 2011-12-30): the nearest strictly later / earlier *existing* date with the weekday"""
+        if not is_dt:
+            return
+        gone = _dt.date(2011, 12, 30)
+        w = calstub.World(m, cls, extra=extra, missing={gone})
+        for d in (gone + DAY, gone + 2 * DAY, gone + 3 * DAY, gone - DAY, gone - 2 * DAY):
+            for wd in range(7):
+                x = d
+                while True:
+                    x = x + DAY if forward else x - DAY
+                    if x != gone and x.weekday() == wd:
+                        break
+                for rl, recv in receivers(w, d)[:2]:
+                    yield (f"{d} {rl} -> weekday {wd} [the day {gone} does not exist in the zone]", w, recv, [wd], x, False)
+
     def invalid_cases():
         w = calstub.World(m, cls, extra=extra)
         for wd in (-1, 7):
@@ -223,8 +245,8 @@ def _calendar_tabulate(ctx, cls: str) -> None:
                                     yield (f"{which}_of({unit}{'' if nth is None else ', ' + str(nth)}, {wd}) from {d} {rl}{wl}", w, recv, args, want, None)
 
     import itertools
-    run("next", itertools.chain(nav_cases(True), invalid_cases()))
-    run("previous", itertools.chain(nav_cases(False), invalid_cases()))
+    run("next", itertools.chain(nav_cases(True), invalid_cases(), missing_day_cases(True)))
+    run("previous", itertools.chain(nav_cases(False), invalid_cases(), missing_day_cases(False)))
     run("first_of", occ_cases("first"))
     run("last_of", occ_cases("last"))
     run("nth_of", occ_cases("nth"))
@@ -460,6 +482,8 @@ def run(ctx) -> None:
     ctx.step(_nav, ctx)
     ctx.step(_clones, ctx)
     ctx.step(_dispatch, ctx)
+    from . import C15
+    ctx.step(C15._getters_tabulate, ctx)      # last_of(unit) without a weekday reads days_in_month: the calendar getters against the standard library
     ctx.expect_min("NAV", 2)
     ctx.expect_min("CALENDAR.tabulated", 10)
     ctx.expect_min("CLONE", 18)
